@@ -433,6 +433,35 @@ def c16(case, obs, crash):
             f.append((None, "op %d: serialization failed: %s" % (k, get(o, "R"))))
         if get(o, "same") is False:
             f.append((None, "op %d: serializing the same result twice gave different text" % k))
+    # the error element in the JSON carries what the structure carries: the unconsumed bytes, and
+    # inside a Partial the version word's number and the bytes after it
+    ops = [o for o in parse_ops(case) if o[0] in ("B", "F")]
+    for k, (o, op) in enumerate(zip(obs, ops)):
+        R = get(o, "R")
+        if op[0] != "B" or not isinstance(R, list) or isinstance(R, canon.Pairs):
+            continue
+        pos = 0
+        for e in R:
+            if elem_kind(e) != "Error":
+                pos += wire_len(e)
+                continue
+            b = elem_body(e)
+            keys = [q for q, _v in b] if isinstance(b, canon.Pairs) else None
+            if keys != ["error", "remaining"]:
+                f.append((None, "op %d: Error element serialized with keys %s, the structure has error, remaining" % (k, keys)))
+                break
+            rem = get(b, "remaining")
+            if bytes(rem) != op[2][pos:]:
+                f.append((None, "op %d: Error element's remaining in the JSON is not the %d unconsumed bytes" % (k, len(op[2]) - pos)))
+            err = get(b, "error")
+            if isinstance(err, canon.Pairs) and len(err) == 1 and err[0][0] == "Partial":
+                pp = err[0][1]
+                pk = [q for q, _v in pp] if isinstance(pp, canon.Pairs) else None
+                if pk != ["version", "remaining", "error"]:
+                    f.append((None, "op %d: Partial error serialized with keys %s, the structure has version, remaining, error" % (k, pk)))
+                elif len(rem) >= 2 and (get(pp, "version") != rem[0] * 256 + rem[1] or list(get(pp, "remaining")) != list(rem[2:])):
+                    f.append((None, "op %d: Partial error in the JSON does not carry the version word's number and the bytes after it" % k))
+            break
     bp = by_parser(case, obs)
     if case.meta.get("twins") and 0 in bp and 1 in bp:
         for (op0, o0), (op1, o1) in zip(bp[0], bp[1]):
@@ -920,6 +949,8 @@ def value_classes(prefix, v):
     out = set()
     if k == "Duration":
         out.add(prefix + "_duration")
+        if get(p, "secs") >= 2 ** 32:
+            out.add("#export-fails")      # marker, not a class: to_be_bytes returns Err for this value
     elif k == "MacAddr":
         out.add(prefix + "_mac")
     elif k == "String":
@@ -956,6 +987,11 @@ def c09(case, obs, crash):
                                 for _key, tv in rec:
                                     classes |= value_classes("K_C09", tv[1])
                     what = "to_be_bytes failed" if X[j] == "ERR" else ("to_be_bytes PANICKED" if X[j] == "PANIC" else "to_be_bytes differs from the %d bytes the packet occupied" % n)
+                    fails = "#export-fails" in classes
+                    classes.discard("#export-fails")
+                    if X[j] == "ERR":
+                        # only a duration of 2^32 seconds or more makes the export fail (K_C09_duration)
+                        classes = {"K_C09_duration"} if fails else set()
                     if X[j] == "PANIC" or not classes:
                         f.append((None, "op %d: V9 element %d: %s (no lossy value kind in the packet)" % (k, j, what)))
                     else:
@@ -1007,13 +1043,28 @@ def c10(case, obs, crash, tables):
                         if b[0][0] in ("Data", "OptionsData"):
                             for m in get(b[0][1], "fields"):
                                 _key, tv = m[0]
-                                classes |= value_classes("K_C10", tv[1])
+                                vc = value_classes("K_C10", tv[1])
+                                if "K_C10_duration" in vc and dtype_of.get(tv[0]) == "DurationSeconds":
+                                    # whole seconds on 4 bytes go out as they came in (exact_dtype in
+                                    # Proofs/ReexportFacts.v): the class is the other units and widths
+                                    cands = tmpl.get(get(get(fs, "header"), "header_id"), [])
+                                    lens = [get(q, "field_length") for t in cands
+                                            for q in (get(t, "fields") or []) + (get(t, "scope_fields") or []) + (get(t, "option_fields") or [])
+                                            if get(q, "field_type") == tv[0] and get(q, "enterprise_number") is None]
+                                    if lens and all(l == 4 for l in lens):
+                                        vc.discard("K_C10_duration")
+                                classes |= vc
                                 if tv[1][0][0] == "DataNumber" and dtype_of.get(tv[0]) == "SignedDataNumber":
                                     classes.add("K_C10_signed_widened")
                             for t in tmpl.get(get(get(fs, "header"), "header_id"), []):
                                 if any(get(q, "field_length") == 65535 for q in get(t, "fields")):
                                     classes.add("K_C10_varlen_prefix")
                     what = "to_be_bytes failed" if X[j] == "ERR" else ("to_be_bytes PANICKED" if X[j] == "PANIC" else "to_be_bytes differs from the %d bytes the message occupied" % n)
+                    fails = "#export-fails" in classes
+                    classes.discard("#export-fails")
+                    if X[j] == "ERR":
+                        # only a duration of 2^32 seconds or more makes the export fail (K_C10_duration)
+                        classes = {"K_C10_duration"} if fails else set()
                     if X[j] == "PANIC" or not classes:
                         f.append((None, "op %d: IPFIX element %d: %s (no lossy value kind, variable-length field or dropped set in the message)" % (k, j, what)))
                     else:
@@ -1289,6 +1340,29 @@ def _max_fields(S, keys, field_keys):
     return m
 
 
+def _fields_of(S, keys, field_keys, tid):
+    """number of field specifiers of the cached template of that id (0 when there is none)"""
+    m = 0
+    for k in keys:
+        for e in get(S, k) or []:
+            if e[0] == tid:
+                m = max(m, sum(len(get(e[1], fk) or []) for fk in field_keys))
+    return m
+
+
+def _v9_data_ids(p):
+    """ids of the data flowsets of one V9 packet's bytes, walking its flowset headers"""
+    out = []
+    q = 20
+    while q + 4 <= len(p):
+        fid = int.from_bytes(p[q : q + 2], "big")
+        ln = int.from_bytes(p[q + 2 : q + 4], "big")
+        if fid > 255:
+            out.append(fid)
+        q += max(ln, 4)
+    return out
+
+
 def c15(case, obs, crash):
     """allocated bytes during parse_bytes against input length + serialized result size.
 
@@ -1315,6 +1389,8 @@ def c15(case, obs, crash):
         ix_data = 0        # IPFIX sets with a data id inside the reported messages
         ix_values = 0      # IPFIX values decoded (each is its own single-entry BTreeMap)
         count_sites = 1    # nom `count` calls that can have reserved from an announced count alone
+        v9_ids = []        # ids of the V9 data flowsets met, and of the IPFIX data sets met: the templates
+        ix_ids = []        # THIS call had a reason to copy (not whatever else the caches hold)
         pos = 0
         for e in R:
             kind = elem_kind(e)
@@ -1325,6 +1401,7 @@ def c15(case, obs, crash):
                         v9_data += 1
                     else:
                         count_sites += 1
+                v9_ids += _v9_data_ids(x[pos : pos + wire_len(e)])
                 pos += wire_len(e)
             elif kind == "IPFix":
                 for fs in get(elem_body(e), "flowsets"):
@@ -1338,6 +1415,7 @@ def c15(case, obs, crash):
                     ln = int.from_bytes(x[q + 2 : q + 4], "big")
                     if sid >= 255:
                         ix_data += 1
+                        ix_ids.append(sid)
                     elif sid == 3:
                         count_sites += 1
                     q += max(ln, 4)
@@ -1350,10 +1428,12 @@ def c15(case, obs, crash):
                 if v == 9:
                     v9_data += 1
                     count_sites += rem // 8
+                    v9_ids += _v9_data_ids(bytes(get(elem_body(e), "remaining")))
                 else:
                     count_sites += 1
-        t9 = _max_fields(S, ("v9_t", "v9_o"), ("fields", "scope_fields", "option_fields")) if S is not None else 0
-        tx = _max_fields(S, ("ix_t", "ix_o"), ("fields",)) if S is not None else 0
+        t9 = max([_fields_of(S, ("v9_t", "v9_o"), ("fields", "scope_fields", "option_fields"), i) for i in set(v9_ids)] + [0]) if S is not None else 0
+        tx = max([_fields_of(S, ("ix_t", "ix_o"), ("fields",), i) for i in set(ix_ids)] + [0]) if S is not None else 0
+        ix_cloned = sum(_fields_of(S, ("ix_t", "ix_o"), ("fields",), i) + 1 for i in ix_ids) if S is not None else 0
         excess = M - bound
         cls = None
         # (1) the remaining buffer is copied once per chained packet
@@ -1367,12 +1447,12 @@ def c15(case, obs, crash):
         # (3) IPFIX: zero-length fields inflate every data byte into |template| output values, each
         #     value a map of its own (about 1 KB allocated against some 40 bytes of JSON); the template
         #     is cloned once per data set
-        elif ix_data and excess <= 64 * ix_data * (tx + 1) + 1024 * ix_values:
+        elif ix_data and excess <= 64 * ix_cloned + 1024 * ix_values:
             cls = "K_C15_zero_len_inflation"
         # (4) nom's `count` reserves up to 64 KiB from the announced count, once per count call
         elif excess <= 70000 * count_sites:
             cls = "K_C15_count_prealloc"
-        f.append((cls, "op %d: %d bytes allocated for a %d-byte buffer and a %d-byte serialized result (bound %d; V9 data flowsets %d, IPFIX data sets %d, largest cached template %d/%d fields, count sites %d)"
+        f.append((cls, "op %d: %d bytes allocated for a %d-byte buffer and a %d-byte serialized result (bound %d; V9 data flowsets %d, IPFIX data sets %d, largest template used by this call's data %d/%d fields, count sites %d)"
                   % (k, M, n, L, bound, v9_data, ix_data, t9, tx, count_sites)))
     return f
 
